@@ -51,7 +51,7 @@ BOUNDS = {
               'real LIS FileRead; FSINGL, ISINGL, VSINGL, SLONG, ULONG through code_read; ReadBIT.bytes_to_float, gen_floats; to68 x '
               '{p,c,cp} re-encode, writeBytes/readBytes 68 and 73): field cover = high half all 2^16 x low half in '
               '{0000,0001,7FFF,8000,FFFF,5555} and vice versa = 786,396 distinct words; FDOUBL: sign x all 2^11 exponents x 54 '
-              'mantissa patterns; variable length codes UVARI, ORIGIN, IDENT, UNITS, ASCII, OBNAME, OBJREF, DTIME: all 11111 byte '
+              'mantissa patterns; variable length codes UVARI, ORIGIN, IDENT, UNITS, ASCII, OBNAME, OBJREF, DTIME: all 16105 byte '
               'strings of length <= 4 over {00,01,02,7F,80,BF,C0,FF,41,20} x {600 byte legal-character tail, no tail} x {start '
               'index 0, 3}; to68 doubles: sign x binary exponents -160..130 x 15 mantissa patterns + specials; '
               'writeBytes/readBytes 66 all 2^8'),
@@ -84,7 +84,7 @@ ASSUMPTIONS = [
     'the compiled decoders are rebuilt from the current .pyx/.cpp sources into scratch (mc.seams.install_ext); the in-tree .so files are never imported',
 ]
 
-ALPHABET = [0x00, 0x01, 0x02, 0x7F, 0x80, 0xBF, 0xC0, 0xFF, 0x41, 0x20]
+ALPHABET = [0x00, 0x01, 0x02, 0x7F, 0x80, 0xBF, 0xC0, 0xFF, 0x41, 0x20, 0x25]      # the last three: 'A', blank, '%' (a format character)
 VAR_CODES = ['UVARI', 'ORIGIN', 'IDENT', 'UNITS', 'ASCII', 'OBNAME', 'OBJREF', 'DTIME']
 _LEGAL = b'ABCDEFGHIJKLMNOPQRSTUVWXYZ0123456789'
 TAIL = bytes(_LEGAL[(i * 7 + 3) % len(_LEGAL)] for i in range(600))
